@@ -15,12 +15,31 @@ open XmppModel XmppModel.Xml
 section facts
 open XmppModel.Header XmppModel.StreamNeg
 
-/-- every attribute `internal/stream.Send` prints with a bare `%s` (read from the string
-literals of the function on every run) is one whose value the library itself chooses:
-the content namespace and the version.  `id`, `to`, `from`, `xml:lang` are not among them. -/
-theorem C12_gen_send_raw :
-    ∃ l, Generated.C12.sendRawAttrs = some l ∧ ∀ n ∈ l, n = "xmlns" ∨ n = "version" :=
-  ⟨_, rfl, by decide⟩
+/-- the arguments of one probe: the probe character twice inside the value of one field (for
+addresses: inside the resourcepart), everything else plain -/
+def probeArgs (ws : Bool) (field : String) (cp : Nat) : HdrArgs :=
+  let v : Str := ['x', Char.ofNat cp, 'y', Char.ofNat cp]
+  let addr : Str := "user@example.net/".toList ++ v
+  { ws := ws, s2s := false, id := [],
+    to := if field = "to" then addr else "example.net".toList,
+    src := if field = "from" then addr else "peer@example.org/there".toList,
+    lang := if field = "lang" then v else "en".toList }
+
+/-- what the model says of one probe: does the reader get the arguments back -/
+def probeModel (ws : Bool) (field : String) (cp : Nat) : Bool :=
+  readHeader (printHeader (probeArgs ws field cp)) == some (expected (probeArgs ws field cp))
+
+set_option maxRecDepth 100000 in
+/-- **probe fact** (replaces the reading of `Send`'s format strings): REAL sessions of both roles
+and framings were made to print their header with each of `' " & < > ; TAB LF CR space a é ☃`
+inside `to`, `from` (resourcepart; "n/a" where an address cannot hold the character) and
+`xml:lang`; `encoding/xml` read every header back with the very value — and the model's printer
+and reader say the same on every point of the grid.  Independent of how `Send` is written. -/
+theorem C12_gen_send_probe :
+    ∃ t, Generated.C12.sendProbe = some t ∧ t.length = 156 ∧
+      ∀ r ∈ t, (r.2.2.2.2 = "ok" ∧ probeModel r.1 r.2.2.1 r.2.2.2.1 = true) ∨
+        (r.2.2.2.2 = "n/a" ∧ r.2.2.1 ≠ "lang" ∧ r.2.2.2.1 ∈ [9, 10, 13]) :=
+  ⟨_, rfl, by decide, by decide⟩
 
 set_option maxRecDepth 100000 in
 /-- the model's `escChar` is `xml.EscapeText` on every code point below U+0300 and on the
